@@ -339,6 +339,9 @@ func run(c *rig.Ctx) {
 	})
 	c.MarkExhaustive("every memory-accessing opcode x 5 location classes x 16 flag nibbles")
 
+	witness(c, ops)
+	ifReads(c, ops)
+
 	roms := romrun.Select("mem_timing", "add_sp_e_timing", "call_timing", "call_cc_timing", "jp_timing", "jp_cc_timing", "ret_timing", "ret_cc_timing", "reti_timing", "pop_timing", "push_timing", "rst_timing", "ld_hl_sp_e_timing", "oam_dma_timing")
 	romrun.FollowROMs(c, "roms", roms, romrun.FollowOpts{Verdict: true})
 }
